@@ -22,6 +22,8 @@
 //	             map notation), command and parenthesised. `buildscript { dependencies { classpath .. } }` is an
 //	             "other section" (Elsewhere). Blocks around: plugins, apply, repositories, configurations, ext,
 //	             android, test, task, jar, tasks.withType.
+//	             Layout: 4 spaces / tab / 2 spaces; 1 in 8 scripts is written without any indentation, 1 in 8 of the
+//	             rest closes its configuration closures in column one.
 //	dual build   a project may carry a pom.xml and a build.gradle side by side (Project.Second); the artifact ids of
 //	             the two files are disjoint, so every reported entry can be attributed to the file declaring it.
 //	Java         0-6 files (class / interface, a few enum / annotation-type files), under src/main/java and
@@ -59,14 +61,16 @@ type Entry struct {
 
 // Build is a generated manifest with its ground truth.
 type Build struct {
-	System    string   `json:"system"` // "maven" | "gradle"
-	FileName  string   `json:"file"`
-	Text      string   `json:"text"`
-	Entries   []Entry  `json:"entries"`
-	Elsewhere []Entry  `json:"elsewhere,omitempty"`  // coordinates written in other sections (not asserted to be absent)
-	Layout    []string `json:"layout"`               // names of the sections/blocks in file order
-	HasBlock  bool     `json:"has_block"`            // a dependencies block is present at all
-	VoidNamed []string `json:"void_named,omitempty"` // sections that contain an element named like an HTML void element (link, param, base, ...)
+	System           string   `json:"system"` // "maven" | "gradle"
+	FileName         string   `json:"file"`
+	Text             string   `json:"text"`
+	Entries          []Entry  `json:"entries"`
+	Elsewhere        []Entry  `json:"elsewhere,omitempty"`          // coordinates written in other sections (not asserted to be absent)
+	Layout           []string `json:"layout"`                       // names of the sections/blocks in file order
+	HasBlock         bool     `json:"has_block"`                    // a dependencies block is present at all
+	VoidNamed        []string `json:"void_named,omitempty"`         // sections that contain an element named like an HTML void element (link, param, base, ...)
+	Flat             bool     `json:"flat,omitempty"`               // gradle: written without indentation
+	ClosureBraceCol1 int      `json:"closure_brace_col1,omitempty"` // gradle: configuration closures whose closing brace stands in column one
 }
 
 // JavaFile is one generated source file.
@@ -890,7 +894,50 @@ func GenGradle(r *run.Rand, artOff int) *Build {
 		b.Layout = append(b.Layout, g.name)
 	}
 	b.Text = t.String()
+
+	// Layout variants that change no token: a script written without any indentation (every line, including the
+	// closing brace of a configuration closure, starts in column one), and an indented script whose configuration
+	// closures are closed in column one. Drawn last, from an own stream, so that the other dimensions are unaffected.
+	fr := r.Fork()
+	switch {
+	case fr.Chance(1, 8):
+		b.Text = stripIndent(b.Text)
+		for i := range b.Entries {
+			b.Entries[i].Text = stripIndent(b.Entries[i].Text)
+		}
+		b.Layout = append(b.Layout, "flat")
+		b.Flat = true
+	case fr.Chance(1, 8):
+		for i := range b.Entries {
+			e := &b.Entries[i]
+			if strings.HasSuffix(e.Style, "-closure") && strings.HasSuffix(e.Text, "\n"+ind+"}") && strings.Count(b.Text, e.Text) == 1 {
+				nt := strings.TrimSuffix(e.Text, ind+"}") + "}"
+				b.Text = strings.Replace(b.Text, e.Text, nt, 1)
+				e.Text = nt
+				b.ClosureBraceCol1++
+			}
+		}
+		if b.ClosureBraceCol1 > 0 {
+			b.Layout = append(b.Layout, "closure-brace-col1")
+		}
+	}
+	if b.Flat {
+		for _, e := range b.Entries {
+			if strings.HasSuffix(e.Style, "-closure") {
+				b.ClosureBraceCol1++
+			}
+		}
+	}
 	return b
+}
+
+// stripIndent removes the leading blanks of every line (the scripts contain no multi-line strings).
+func stripIndent(s string) string {
+	lines := strings.Split(s, "\n")
+	for i, l := range lines {
+		lines[i] = strings.TrimLeft(l, " \t")
+	}
+	return strings.Join(lines, "\n")
 }
 
 // ----------------------------------------------------------------------------------------------- Java
